@@ -55,9 +55,13 @@ EvalE(e, a, b, pres) ==
     [] e = "a/b" -> BinW("/", a, b, pres, TRUE) [] OTHER -> BinW("%", b, 3, pres, TRUE)
 
 \* ---- pure library callees (finite maps on the input domain) ---------------
-\* utf8.RuneLen and utf16.RuneLen have the same name and signature in different packages
+\* utf8.RuneLen and utf16.RuneLen have the same name and signature in different packages;
+\* a/util.Weight and b/util.Weight (two packages of the generated module that are BOTH called util, as
+\* html/template and text/template or crypto/rand and math/rand are) differ in nothing but the import path
 Callee(f, x) ==
-  CASE f = "utf8.RuneLen" -> IF x < 0 THEN -1 ELSE IF x < 128 THEN 1 ELSE IF x < 2048 THEN 2 ELSE 3
+  CASE f = "a/util.Weight" -> 2 * x + 1
+    [] f = "b/util.Weight" -> 3 * x
+    [] f = "utf8.RuneLen" -> IF x < 0 THEN -1 ELSE IF x < 128 THEN 1 ELSE IF x < 2048 THEN 2 ELSE 3
     [] f = "utf16.RuneLen" -> IF x < 0 THEN -1 ELSE 1
     [] f = "bits.OnesCount8" -> LET u == x % 256 IN
          (u % 2) + ((u \div 2) % 2) + ((u \div 4) % 2) + ((u \div 8) % 2) + ((u \div 16) % 2)
@@ -65,7 +69,7 @@ Callee(f, x) ==
     [] OTHER -> LET u == x % 256 IN      \* bits.Len8
          IF u = 0 THEN 0 ELSE IF u < 2 THEN 1 ELSE IF u < 4 THEN 2 ELSE IF u < 8 THEN 3 ELSE IF u < 16 THEN 4
          ELSE IF u < 32 THEN 5 ELSE IF u < 64 THEN 6 ELSE IF u < 128 THEN 7 ELSE 8
-Callees == {"utf8.RuneLen", "utf16.RuneLen", "bits.OnesCount8", "bits.Len8"}
+Callees == {"utf8.RuneLen", "utf16.RuneLen", "bits.OnesCount8", "bits.Len8", "a/util.Weight", "b/util.Weight"}
 
 \* ---- templates -----------------------------------------------------------
 \* "branch":  if L CMP R { return T } else { return E }
